@@ -19,6 +19,8 @@ type Chooser struct {
 	// only shape the distribution of recorded values)
 	switchPermille int
 	mapPermille    int
+	strategy       int // 0 random walk, 1 newest task first, 2 starve one task, 3 let simulated time pass eagerly
+	victim         int
 	quiet          map[string]bool // classes answered 0 without drawing
 }
 
@@ -40,6 +42,9 @@ func NewRandom(seed uint64) *Chooser {
 	case 4:
 		c.switchPermille = 600
 	}
+	// swarm: shape of the walk
+	c.strategy = int(c.next() % 6) // 0,1,2 random walk; 3 newest first; 4 starve one task; 5 eager time
+	c.victim = 2 + int(c.next()%5)
 	// swarm: how many map-range sites leave identity order
 	c.mapPermille = []int{0, 30, 125, 500, 1000, 1000}[c.next()%6]
 	return c
@@ -144,6 +149,26 @@ func (c *Chooser) ChooseFrom(label string, n int, valid []int) int {
 	v := 0
 	if int(c.next()%1000) < c.switchPermille {
 		v = valid[int(c.next()%uint64(len(valid)))]
+		switch c.strategy {
+		case 3: // newest task first: the runnable task with the highest id
+			best := 0
+			for _, x := range valid {
+				if x < n-1 && x > best {
+					best = x
+				}
+			}
+			if best > 0 && c.next()%4 != 0 {
+				v = best
+			}
+		case 4: // starve one task: never choose it while something else can run
+			if v == c.victim {
+				v = 0
+			}
+		case 5: // let simulated time pass as early as possible (tools finish while files are still being checked)
+			if valid[len(valid)-1] == n-1 && c.next()%2 == 0 {
+				v = n - 1
+			}
+		}
 	}
 	c.Log = append(c.Log, kern.Choice{L: label, N: n, V: v})
 	return v
